@@ -39,6 +39,9 @@ type restObs struct {
 	SetCookie       bool     `json:"set_cookie"`
 	LocksBefore     []string `json:"locks_before"`
 	LocksAfter      []string `json:"locks_after"`
+	// len(restHandler.sessions) through the build overlay; -2 when the overlay could not be applied
+	SessionsBefore int `json:"sessions_before"`
+	SessionsAfter  int `json:"sessions_after"`
 	// after the request: does the session created before it still work, with the right password?
 	PostRenewStatus int    `json:"post_renew_status"`
 	PostRenewBody   string `json:"post_renew_body"`
@@ -62,7 +65,14 @@ type restFixture struct {
 
 // serve calls the real handler; a handler that does not return within 5 s is reported.
 func (f *restFixture) serve(method, path, body string, hdr http.Header, withCookie bool) (*httptest.ResponseRecorder, error) {
-	req := httptest.NewRequest(method, path, strings.NewReader(body))
+	var req *http.Request
+	func() {
+		defer func() { recover() }() // httptest.NewRequest panics on a target it cannot parse
+		req = httptest.NewRequest(method, path, strings.NewReader(body))
+	}()
+	if req == nil {
+		return nil, fmt.Errorf("unusable request target %q %q", method, path)
+	}
 	for k, v := range hdr {
 		req.Header[k] = v
 	}
@@ -149,6 +159,15 @@ func (f *restFixture) baseline() error {
 	if l := locksOf(f.ls); len(l) != 1 {
 		f.degraded = fmt.Sprintf("expected exactly the held lock, Locks() = %v", l)
 	}
+	// the probe used after every case ("is the session still what it was") must work on an untouched session
+	rec, err = f.serve("POST", "/v1/renew", f.bodyFor("/v1/renew"), f.rightAuth(), true)
+	if err != nil {
+		return err
+	}
+	lr.Locked = false
+	if rec.Code != 200 || json.Unmarshal(rec.Body.Bytes(), &lr) != nil || !lr.Locked {
+		f.degraded = fmt.Sprintf("POST /v1/renew of the held lock answered %d %q", rec.Code, rec.Body.String())
+	}
 	return nil
 }
 
@@ -213,8 +232,13 @@ func runRest(data []byte, out *json.Encoder) {
 				k := http.CanonicalHeaderKey(kv[0])
 				hdr[k] = append(hdr[k], unhex(kv[1]))
 			}
-			o := restObs{ID: c.ID, LocksBefore: locksOf(f.ls), Degraded: f.degraded != ""}
+			o := restObs{ID: c.ID, LocksBefore: locksOf(f.ls), Degraded: f.degraded != "", SessionsBefore: sessionCount(f.h), SessionsAfter: -2}
 			rec, err := f.serve(c.Method, c.Path, f.bodyFor(c.Path), hdr, true)
+			if err != nil && strings.HasPrefix(err.Error(), "unusable request target") {
+				o.Error = err.Error()
+				out.Encode(o)
+				continue
+			}
 			if err != nil {
 				o.Error = err.Error()
 				out.Encode(o)
@@ -226,6 +250,7 @@ func runRest(data []byte, out *json.Encoder) {
 			o.WWWAuthenticate = rec.Header().Get("WWW-Authenticate")
 			o.SetCookie = len(rec.Header()["Set-Cookie"]) > 0
 			o.LocksAfter = locksOf(f.ls)
+			o.SessionsAfter = sessionCount(f.h)
 			// Is the session (and the hold) still what it was?
 			pr, err := f.serve("POST", "/v1/renew", f.bodyFor("/v1/renew"), f.rightAuth(), true)
 			if err != nil {
@@ -239,7 +264,7 @@ func runRest(data []byte, out *json.Encoder) {
 				o.PostRenewLocked = json.Unmarshal(pr.Body.Bytes(), &lr) == nil && lr.Locked
 			}
 			out.Encode(o)
-			untouched := gateRejected(rec) && sameStrings(o.LocksBefore, o.LocksAfter) &&
+			untouched := gateRejected(rec) && sameStrings(o.LocksBefore, o.LocksAfter) && o.SessionsBefore == o.SessionsAfter &&
 				(f.degraded != "" || (pr != nil && pr.Code == 200 && o.PostRenewLocked))
 			if !untouched {
 				if err := f.baseline(); err != nil {
